@@ -315,9 +315,32 @@ impl Inventory {
         Ok(self.get_version(right)?.diff(left))
     }
 
+    /// Reverses the removal of a content path by `dedup_head()`: the path is added to the manifest
+    /// again. Returns a content path of the HEAD version that has the same content, if there is
+    /// one. Otherwise the content exists in an earlier version and nothing is changed, because
+    /// then the staged file was not needed in the first place.
+    pub fn undo_dedup(
+        &mut self,
+        digest: Rc<HexDigest>,
+        removed: Rc<ContentPath>,
+    ) -> Option<Rc<ContentPath>> {
+        let prefix = format!("{}/", self.head);
+
+        let kept = self
+            .manifest
+            .get_paths(&digest)?
+            .iter()
+            .find(|path| path.starts_with(&prefix))?
+            .clone();
+
+        self.manifest.insert_rc(digest, removed);
+
+        Some(kept)
+    }
+
     /// Dedups all of the content paths that were added in the most recent version. All of the
-    /// paths that are removed from the manifest are returned.
-    pub fn dedup_head(&mut self) -> Vec<Rc<ContentPath>> {
+    /// paths that are removed from the manifest are returned along with their digests.
+    pub fn dedup_head(&mut self) -> Vec<(Rc<HexDigest>, Rc<ContentPath>)> {
         let mut removed = Vec::new();
         let prefix = format!("{}/", self.head);
 
@@ -345,14 +368,14 @@ impl Inventory {
                 while let Some(path) = iter.next() {
                     if iter.peek().is_some() {
                         self.manifest.remove_path(&path);
-                        removed.push(path);
+                        removed.push((digest.clone(), path));
                     }
                 }
             } else {
                 // There's a copy in an earlier version; remove them all
                 for path in paths {
                     self.manifest.remove_path(&path);
-                    removed.push(path);
+                    removed.push((digest.clone(), path));
                 }
             }
         }
